@@ -59,6 +59,10 @@ def H.add (s : H) (h : Nat) : H :=
 /-- `add_many` / a sequence of `add_hash` calls -/
 def H.addMany (s : H) (hs : List Nat) : H := hs.foldl H.add s
 
+/-- `impl Update<HyperLogLog> for KmerMinHash` (also behind `hll_update_mh`):
+    `for h in self.mins() { other.add_hash(h) }` — on whatever the receiver already holds -/
+def H.update (s : H) (mins : List Nat) : H := mins.foldl H.add s
+
 /-- `check_compatible`: ksize first, then the register count -/
 def checkCompatible (a b : H) : Except Err Unit :=
   if a.ksize ≠ b.ksize then .error .mismatchKSizes
